@@ -54,6 +54,10 @@ class Exec2(Exec):
         self.closure_src = {}                 # constructor name -> "{closure@...}" text
         self._closure_index = None
         self.inlined = set()                  # names of the bodies that were executed
+        self.discr_of = {}                    # value term -> discriminant (e.g. the state of a coroutine)
+        self._promoted = {}
+        self._promoted_index = None
+        self.keyof = {}                       # address key symbol -> field key ("3", "Variant.1", "v3.6")
         smt.fun("addr", 2)
         if int_ops and "(declare-fun toint (V) Int)" not in smt.decls:
             smt.decls.append("(declare-fun toint (V) Int)")
@@ -70,6 +74,14 @@ class Exec2(Exec):
         return r
 
     # ------------------------------------------------------------------ addresses
+    def ksym(self, key):
+        """SMT constant standing for a field key inside address terms"""
+        sym = "ak_" + re.sub(r"[^A-Za-z0-9]", "_", key)
+        if sym not in self.keyof:
+            self.keyof[sym] = key
+            self.smt.decls.append("(declare-const %s V)" % sym)
+        return sym
+
     def addr_of(self, env, p):
         """address term of place expression `p`, or None when it is not behind a pointer"""
         p = strip_parens(p)
@@ -83,9 +95,9 @@ class Exec2(Exec):
             if mv and self._balanced(mv.group(1)):
                 a = self.addr_of(env, mv.group(1))
                 key = "%s.%s" % (mv.group(2).replace("variant#", "v"), m.group(2))
-                return "(addr %s %s)" % (a, key) if a else None
+                return "(addr %s %s)" % (a, self.ksym(key)) if a else None
             a = self.addr_of(env, base)
-            return "(addr %s %s)" % (a, m.group(2)) if a else None
+            return "(addr %s %s)" % (a, self.ksym(m.group(2))) if a else None
         return None
 
     def project(self, base, key):
@@ -112,6 +124,7 @@ class Exec2(Exec):
             hv = heap.get((a, "*"))
             return hv if hv is not None else mk_deref(a)
         R, key = addr_parts(a)
+        key = self.keyof.get(key, key)
         if whole and any(a in k[0] for k in heap):
             raise ValueError("whole read of a place that was partly overwritten: %s" % a[:120])
         if (R, key) in heap:
@@ -122,7 +135,7 @@ class Exec2(Exec):
         heap = {k: v for k, v in env.get("__heap", {}).items() if a not in k[0]}
         if is_addr(a):
             R, key = addr_parts(a)
-            heap[(R, key)] = val
+            heap[(R, self.keyof.get(key, key))] = val
         else:
             heap[(a, "*")] = val
         env["__heap"] = heap
@@ -169,7 +182,22 @@ class Exec2(Exec):
             c = o[6:]
             if c in ("true", "false"):
                 return "(b2v %s)" % c
-            me = re.match(r"^(?:[\w:]+::)?(\w+)::(\w+)$", c)
+            if re.search(r"::promoted\[\d+\]$", c):
+                key = ("__promoted", c)
+                if key not in self._promoted:
+                    if self._promoted_index is None:
+                        self._promoted_index = [(n.rsplit(">::", 1)[-1], bs[0]) for n, bs in self.bodies.items() if re.search(r"::promoted\[\d+\]$", n) and len(bs) == 1]
+                    cands = [b for tail, b in self._promoted_index if c.endswith("::" + tail) or c == tail]
+                    val = None
+                    if len(cands) == 1:
+                        sub = []
+                        self._walk(cands[0], "bb0", {}, [], [], sub, 1)
+                        if len(sub) == 1 and not sub[0][0]:
+                            val = sub[0][1]
+                    self._promoted[key] = val
+                if self._promoted[key] is not None:
+                    return self._promoted[key]
+            me = re.match(r"^(?:[\w:]+::)?(\w+)::(\w+)$", self._strip_generics(c))
             if me and me.group(1) in self.enums and me.group(2) in self.enums[me.group(1)]:
                 return self.smt.fun("CE_%s_%s" % (me.group(1), me.group(2)), 0)
             return self._konst(c)
@@ -211,6 +239,8 @@ class Exec2(Exec):
         m = re.match(r"^discriminant\((.+)\)$", rv)
         if m:
             b = self.place(env, m.group(1))
+            if b in self.discr_of:
+                return self._konst("int_%d" % self.discr_of[b])
             mc = re.match(r"^\(?CE_(\w+?)_(\w+)[ )]?", b + " ")
             if mc:
                 for en, vs in self.enums.items():
@@ -236,7 +266,7 @@ class Exec2(Exec):
                 return super().rvalue(env, rv)
             return "(b2v (%s (toint %s) (toint %s)))" % (op, va, vb)
         # enum aggregates of the registered enums:  path::Enum::Variant(args) | path::Enum::Variant { f: x } | path::Enum::Variant
-        me = re.match(r"^(?:[\w:<>' ,]*::)?(\w+)::(\w+)(\(.*\)| \{.*\})?$", rv)
+        me = re.match(r"^(?:[\w:<>' ,]*::)?(\w+)::(\w+)(\(.*\)| \{.*\})?$", self._strip_generics(rv))
         if me and me.group(1) in self.enums and me.group(2) in self.enums[me.group(1)] and not rv.startswith("const "):
             name = "CE_%s_%s" % (me.group(1), me.group(2))
             rest = me.group(3)
@@ -247,7 +277,7 @@ class Exec2(Exec):
             else:
                 vals = [self.operand(env, f.split(":", 1)[1]) for f in self.split_args(rest.strip()[1:-1]) if ":" in f]
             return "(%s %s)" % (self.smt.fun(name, len(vals)), " ".join(vals)) if vals else self.smt.fun(name, 0)
-        mcl = re.match(r"^(\{closure@[^}]*\})( \{(.*)\})?$", rv)
+        mcl = re.match(r"^(\{(?:closure|coroutine)@[^}]*\})( \{(.*)\})?$", rv)
         if mcl:
             cname = "C_closure_" + sanitize(mcl.group(1))
             self.closure_src[cname] = mcl.group(1)
@@ -255,6 +285,30 @@ class Exec2(Exec):
             vals = [self.operand(env, f) for f in fields]
             return "(%s %s)" % (self.smt.fun(cname, len(vals)), " ".join(vals)) if vals else self.smt.fun(cname, 0)
         return super().rvalue(env, rv)
+
+    @staticmethod
+    def _strip_generics(rv):
+        """remove `::<...>` turbofish groups that precede the argument list of an aggregate"""
+        out, i, n = "", 0, len(rv)
+        while i < n:
+            if rv.startswith("::<", i):
+                d, j = 0, i + 2
+                while j < n:
+                    if rv[j] == "<":
+                        d += 1
+                    elif rv[j] == ">" and rv[j - 1] != "-":
+                        d -= 1
+                        if d == 0:
+                            break
+                    j += 1
+                i = j + 1
+                continue
+            if rv[i] in "({ ":
+                out += rv[i:]
+                break
+            out += rv[i]
+            i += 1
+        return out
 
     # ------------------------------------------------------------------ inlining
     def _closures(self):
@@ -354,6 +408,8 @@ class Exec2(Exec):
         m = re.match(r"^goto -> (bb\d+);$", term)
         if m:
             return self._walk(body, m.group(1), env, pc, calls, results, depth + 1)
+        if term.startswith("assert(const false"):
+            return  # diverges
         m = re.match(r"^(?:drop|StorageDead|assert)\(.*\) -> \[(?:return|success): (bb\d+).*\];$", term)
         if m:
             return self._walk(body, m.group(1), env, pc, calls, results, depth + 1)
